@@ -2,8 +2,10 @@ package codec
 
 import (
 	"encoding/base64"
+	"encoding/json"
 	"fmt"
 	"time"
+	"unicode/utf8"
 
 	"github.com/pentops/j5/j5types/date_j5t"
 	"github.com/pentops/j5/j5types/decimal_j5t"
@@ -83,6 +85,11 @@ func (enc *encoder) encodeAny(anyField j5reflect.AnyField) error {
 
 	var jsonData []byte
 	if val.J5Json != nil {
+		// the stored text is copied into the document as it is: it must be one JSON value
+		// (json.Valid tolerates invalid UTF-8 inside strings, the document must not contain any)
+		if !json.Valid(val.J5Json) || !utf8.Valid(val.J5Json) {
+			return fmt.Errorf("encoding any type %q: stored j5_json is not a JSON document", val.TypeName)
+		}
 		jsonData = val.J5Json
 	} else {
 		// no payload bytes: the proto encoding of a message with no fields set
